@@ -19,6 +19,7 @@ let tok_s = function
   | TR (i, c) -> Printf.sprintf "R%s:%s" (si i) (if int_of_n c = 0 then "osvbngd_restart" else "vpp_recovery")
   | TL i -> "L" ^ si i ^ ":released" | TDEL i -> "DEL" ^ si i | TSP i -> "sp" ^ si i | TSD i -> "sd" ^ si i
   | TSPF i -> "spF" ^ si i | TCKSERR -> "CKSERR" | TSDF i -> "sdF" ^ si i
+  | TPROG -> "PROG" | TLA i -> "L" ^ si i ^ ":active" | T4Q sw -> "4?" ^ si sw
 let log_s l = join_or_dash (List.map tok_s l)
 let by_key l = List.sort (fun (a, _) (b, _) -> compare (int_of_n a) (int_of_n b)) l
 let rec dedup_keys seen = function
@@ -85,6 +86,10 @@ let () =
             | "relf" -> Some (RelF (ni (int_of_string a.(1))))
             | "delretry" -> Some (DelRetry (ni (int_of_string a.(1)), Array.length a > 2 && a.(2) = "ok"))
             | "giveup" -> Some (GiveUp (ni (int_of_string a.(1))))
+            | "bind4" ->
+              let seg = if k < Array.length segs then tokens segs.(k) else [] in
+              let o = match seg with "bind4" :: x :: _ -> obs_of x | _ -> None in
+              Some (Bind4 (ni (int_of_string a.(1)), ni (int_of_string a.(2)), o))
             | "flip" -> Some Flip
             | "relstop" ->
               Some (RelStop (ni (int_of_string a.(1)), (Array.length a > 3 && a.(3) = "d"), a.(2) = "p", None, Z0))
@@ -124,6 +129,9 @@ let () =
                     | "delretry", _ -> "delretry " ^ log_s lg
                     | "giveup", 0 -> "giveup none" | "giveup", 1 -> "giveup gaveup" | "giveup", _ -> "giveup retrying"
                     | _ -> "note")
+                 | OBind (ad, t, lg) ->
+                   Printf.sprintf "bind4 %s %s %s" (match ad with Some x -> si x | None -> "r") (si t) (log_s lg)
+                 | OBindX -> "bind4 x"
                  | OCrash lg -> Printf.sprintf "crash %s start=ok live=%s store=%s" (log_s lg) (sessions_s proto s'.live)
                                   (sessions_s proto s'.store) in
                outs := txt :: !outs)) ops;
